@@ -20,6 +20,19 @@ pub struct Dist {
     /// signature class per case: 0 valid, 1 corrupted, 2 swapped, 3 foreign key, 4 wrong header
     pub sig_class: u8,
     pub blocks: u8,
+    /// every weight is shifted left by this many bits (voting power up to 2^127) ...
+    #[serde(default)]
+    pub shift: u8,
+    /// ... and stake i gets adds[i] added (so that totals of every residue mod 3 exist at every magnitude)
+    #[serde(default)]
+    pub adds: Vec<u8>,
+}
+
+fn amount(d: &Dist, i: usize) -> u128 {
+    let sh = d.shift.min(120) as u32;
+    let w = d.stakes[i].1 as u128;
+    let base = if w > (u128::MAX >> 1) >> sh { (u128::MAX >> 1) >> sh << sh } else { w << sh };
+    base.saturating_add(d.adds.get(i).copied().unwrap_or(0) as u128)
 }
 
 fn build(d: &Dist, shard: usize) -> Option<Sealed> {
@@ -32,10 +45,10 @@ fn build_with(d: &Dist, shard: usize, variant: u128) -> Option<Sealed> {
         .stakes
         .iter()
         .enumerate()
-        .map(|(i, (k, w, s, e))| {
+        .map(|(i, (k, _w, s, e))| {
             (
                 TxHash(tmelcrypt::hash_single(format!("c14-stake-{}", i).as_bytes())),
-                StakeDoc { pubkey: pk(*k as usize), e_start: *s, e_post_end: *e, syms_staked: CoinValue(*w as u128) },
+                StakeDoc { pubkey: pk(*k as usize), e_start: *s, e_post_end: *e, syms_staked: CoinValue(amount(d, i)) },
             )
         })
         .collect();
@@ -61,16 +74,23 @@ fn build_with(d: &Dist, shard: usize, variant: u128) -> Option<Sealed> {
 fn votes(d: &Dist, epoch: u64, key: Option<u8>) -> u128 {
     d.stakes
         .iter()
-        .filter(|(k, _, s, e)| *s <= epoch && epoch < *e && key.map_or(true, |kk| kk as usize % NKEYS == *k as usize % NKEYS))
-        .map(|x| x.1 as u128)
+        .enumerate()
+        .filter(|(_, (k, _, s, e))| *s <= epoch && epoch < *e && key.map_or(true, |kk| kk as usize % NKEYS == *k as usize % NKEYS))
+        .map(|(i, _)| amount(d, i))
         .sum()
 }
 
 pub fn check_dist(d: &Dist, st: &mut Stats, shard: usize) -> Check {
     let s = match build(d, shard) {
         Some(s) => s,
-        None => return Ok(()),
+        None => {
+            st.exclude("state-could-not-be-built");
+            return Ok(());
+        }
     };
+    if d.shift > 0 {
+        st.class("shifted-distribution");
+    }
     let hh = s.header().hash();
     let epoch = s.header().height.0 / 200_000;
     let total = votes(d, epoch, None);
@@ -120,14 +140,18 @@ pub fn check_dist(d: &Dist, st: &mut Stats, shard: usize) -> Check {
             }
             st.class("tampered-proof");
         } else {
-            if 3 * present > 2 * total && !got {
+            let (p3, t2) = (num::BigUint::from(present) * 3u32, num::BigUint::from(total) * 2u32);
+            if total > u128::MAX / 3 {
+                st.class("voting-power-above-2^126");
+            }
+            if p3 > t2 && !got {
                 viol!(
                     if present == total { "all-stakers-do-not-confirm" } else { "supermajority-does-not-confirm" },
                     "signers hold more than 2/3 but the state is not confirmed: {}",
                     desc()
                 );
             }
-            if 3 * present < 2 * total && got {
+            if p3 < t2 && got {
                 viol!(
                     if present == 0 { "empty-or-powerless-proof-confirms" } else { "minority-confirms" },
                     "signers hold less than 2/3 but the state is confirmed: {}",
@@ -193,7 +217,7 @@ pub fn run(ctx: &Ctx) -> (Outcome, String, Option<bool>) {
                 c /= weights.len();
             }
             let subsets: Vec<u8> = (0..(1u16 << n)).map(|x| x as u8).collect();
-            dists.push(Dist { stakes, subsets, sig_class: 0, blocks: 0 });
+            dists.push(Dist { stakes, subsets, sig_class: 0, blocks: 0, shift: 0, adds: vec![] });
         }
     }
     // shares just above two thirds (69/103, 667/1000, ...): three stakers (k+1, k, k) with the first two signing,
@@ -204,7 +228,20 @@ pub fn run(ctx: &Ctx) -> (Outcome, String, Option<bool>) {
             if c > 0 {
                 stakes.push((2, c, 0, 10));
             }
-            dists.push(Dist { stakes, subsets: (0..8u8).collect(), sig_class: 0, blocks: 0 });
+            dists.push(Dist { stakes: stakes.clone(), subsets: (0..8u8).collect(), sig_class: 0, blocks: 0, shift: 0, adds: vec![] });
+            // the same shapes at magnitudes where 3 * votes no longer fits 128 bits (total kept below 2^128), with
+            // every residue of the total mod 3
+            if k <= 1000 {
+                for shift in [100u8, 115, 116, 117] {
+                    let top = stakes.iter().map(|x| x.1).sum::<u64>();
+                    if ((top as u128 + 1) << shift) >> shift != top as u128 + 1 || (top as u128 + 1) << shift > u128::MAX / 2 + (u128::MAX / 4) {
+                        continue;
+                    }
+                    for adds in [vec![], vec![1u8, 1], vec![1, 0], vec![0, 1], vec![2, 1, 1]] {
+                        dists.push(Dist { stakes: stakes.clone(), subsets: (0..8u8).collect(), sig_class: 0, blocks: 0, shift, adds });
+                    }
+                }
+            }
         }
     }
     let n_exh = dists.len();
@@ -228,12 +265,12 @@ pub fn run(ctx: &Ctx) -> (Outcome, String, Option<bool>) {
                 0u8..5,
                 0u8..2,
             )
-                .prop_map(|(stakes, subsets, sig_class, blocks)| Dist { stakes, subsets, sig_class, blocks })
+                .prop_map(|(stakes, subsets, sig_class, blocks)| { let shift = if stakes.len() <= 3 && stakes.iter().all(|x| x.1 <= 1000) && sig_class == 0 && subsets.len() % 3 == 0 { 116 } else { 0 }; let adds = if shift > 0 { subsets.iter().take(3).map(|x| x % 3).collect() } else { vec![] }; Dist { stakes, subsets, sig_class, blocks, shift, adds } })
         },
         |d, st, shard| check_dist(d, st, shard),
     );
     out.absorb(o);
-    let rule = format!("Enumerated: every assignment of weights {{1,2,3,5,10}} to 1-{} stakers with distinct keys, active from epoch 0, x every subset of signers with valid signatures (exhaustive: true refers to this sub-space). Also enumerated: 54 near-threshold distributions ((k+1,k,k), (2k+1,k), ... for k from 34 to 10^12) x all signer subsets. Sampled: 1-6 stakes over 5 keys (several per key), weights to 1000, stakes starting later or already ended, signer subsets, and signatures that are valid / bit-flipped / made by another key / over another header / truncated, plus a foreign signer. Oracle: an invalid signature => not confirmed; all valid and 3*present > 2*total => confirmed; 3*present < 2*total => not confirmed (equality unspecified); over the valid-signature subsets, adding a signer never turns confirmed into not confirmed. For every all-valid case a sibling state (same network, height and stakers, different fee pool) must not be confirmed by the proof that just confirmed the first state. Non-trivial = proper non-empty signer subset with total > 0; distinct by (stakes, subset, signature class).", max_stakers);
+    let rule = format!("Enumerated: every assignment of weights {{1,2,3,5,10}} to 1-{} stakers with distinct keys, active from epoch 0, x every subset of signers with valid signatures (exhaustive: true refers to this sub-space). Also enumerated: 54 near-threshold distributions ((k+1,k,k), (2k+1,k), ... for k from 34 to 10^12) x all signer subsets, the smaller ones repeated at magnitudes 2^100..2^127 (weights shifted left by 100-117 bits plus 0-2, total below 2^128, every residue mod 3) where 3 x votes no longer fits 128 bits. Sampled: 1-6 stakes over 5 keys (several per key), weights to 1000, stakes starting later or already ended, signer subsets, and signatures that are valid / bit-flipped / made by another key / over another header / truncated, plus a foreign signer. Oracle: an invalid signature => not confirmed; all valid and 3*present > 2*total => confirmed; 3*present < 2*total => not confirmed (equality unspecified); over the valid-signature subsets, adding a signer never turns confirmed into not confirmed. For every all-valid case a sibling state (same network, height and stakers, different fee pool) must not be confirmed by the proof that just confirmed the first state. Non-trivial = proper non-empty signer subset with total > 0; distinct by (stakes, subset, signature class).", max_stakers);
     (out, rule, Some(true))
 }
 
